@@ -111,6 +111,7 @@ let rt_cause (dump : sexp) : string option =
              let rec go = function
                | [] | [_] -> false
                | L [A "typedef"; A ("object" | "interface" | "input" | "enum"); _; _; _; _; _; L []; _; L []; L []] :: _ :: _ -> true
+               | L [A "schemadef"; A "t"; _; L (_ :: _); L []] :: _ :: _ -> true     (* extend schema @d, no list, then "{" *)
                | _ :: r -> go r in
              go defs
            | _ -> false) then Some "rt-sdl-empty-body-dropped"
